@@ -120,8 +120,8 @@ class AttributeValueFactory(object):
             if not isinstance(name, str):
                 raise ValueError('Unrecognized attribute type: '
                                  '{0}'.format(name))
-            elif name.startswith('x-'):
-                # Custom attribute indicated
+            elif name.startswith(('x-', 'y-')):
+                # Custom attribute indicated (client or server defined)
                 return attributes.CustomAttribute(value)
 
     def create_attribute_value_by_enum(self, enum, value):
